@@ -1204,3 +1204,10 @@ Lemma cached_default_target_refuted :
         [HCmd (KConn 1) 0 (c_demo 121 None None); HEv (EvDelMap 0); HCmd (KConn 1) 0 (c_demo 121 None None);
          HEv (EvSetActive 1 false); HCmd (KConn 2) 0 (c_demo 90 (Some 0) None)])) = [[(2, 121, 0)]; []; []].
 Proof. repeat split; vm_compute; reflexivity. Qed.
+
+(* reaping expired domains by anybody is refuted: the stranger (client 3) removes client 1's domain #0 once it is expired;
+   the table's HTTPDomainDelete refuses it whatever its age *)
+Lemma reap_expired_refuted :
+  w_doms (dom_delete_reaping (fun _ => true) w_demo 3 0) = []
+  /\ exec current_table w_demo (KConn 3) 0 (c_demo 86 (Some 0) None) = mk false w_demo.
+Proof. split; vm_compute; reflexivity. Qed.
